@@ -53,8 +53,21 @@ def gen_schedule(rng: random.Random, fault_class):
     }
 
 
+SWEEP_KINDS = ["align", "align_multi_templates", "score", "landscape", "shared_model", "group_align", "masked_difference_stack"]
+
+
 def generate(seed: int, tier: str):
     rng = random.Random(seed)
+    if tier == "thorough" and seed % 10 < 3:
+        # schedule sweep: one of 997 small shared-model scenarios, revisited under many different fine-grained schedules
+        wr = random.Random(seed % 997)
+        w = C.gen_world(wr, loader="single", max_mol=3, max_box=7, allow_edge=False)
+        ops = [C.gen_op(wr, w, kinds=SWEEP_KINDS)]
+        sch = gen_schedule(rng, "sched")
+        sch.update(workers=rng.choice([2, 2, 3]), granularity=rng.choice(["line", "opcode-some", "opcode-all", "opcode-all"]),
+                   preempt_p=rng.choice([0.02, 0.05, 0.1, 0.2]))
+        return {"property": PROPERTY, "seed": seed, "world": w, "knobs": W.gen_knobs(wr), "ops": ops, "fault_class": "sched", "schedule": sch,
+                "uuid_seed": wr.randrange(1 << 30), "np_seed": wr.randrange(1 << 30), "f8_pick": 0.0, "sweep": seed % 997}
     w = C.gen_world(rng)
     n_ops = rng.choice([1, 1, 2, 2, 3])
     ops = [C.gen_op(rng, w) for _ in range(n_ops)]
